@@ -5,9 +5,11 @@ package vsched_test
 
 import (
 	"fmt"
+	"runtime"
 	"sort"
 	"strings"
 	"testing"
+	"time"
 
 	"pikemc/vsched"
 )
@@ -121,4 +123,27 @@ func TestReplayDivergenceIsAHardError(t *testing.T) {
 		}
 	}()
 	vsched.Execute(vsched.Options{}, []int{5, 5, 5}, []func(){func() { vsched.Yield(1) }})
+}
+
+// A spawned thread that blocks on something the model does not own (a real timer) is detached after
+// vsched.StuckTimeout; the execution completes without it and later executions are not disturbed by it.
+func TestStuckThreadIsDetached(t *testing.T) {
+	old := vsched.StuckTimeout
+	vsched.StuckTimeout = 300 * time.Millisecond
+	defer func() { vsched.StuckTimeout = old }()
+	release := make(chan struct{})
+	done := 0
+	x := vsched.Execute(vsched.Options{Trace: true}, nil, []func(){func() {
+		vsched.Go(func() { <-release }) // blocked outside the model
+		vsched.Yield(1)
+		done++
+	}})
+	if x.Detached != 1 || x.Deadlock || done != 1 {
+		t.Fatalf("detached=%d deadlock=%v done=%d trace=%v", x.Detached, x.Deadlock, done, x.Trace)
+	}
+	// the next execution reuses the thread indices; the detached goroutine, once released, must not be taken for one of them
+	y := vsched.Execute(vsched.Options{}, nil, []func(){func() { vsched.Yield(1); close(release); vsched.Yield(2); runtime.Gosched(); vsched.Yield(3) }, func() { vsched.Yield(4) }})
+	if y.Detached != 0 || y.Deadlock || len(y.Panics) != 0 {
+		t.Fatalf("second run: %+v", y)
+	}
 }
